@@ -101,7 +101,7 @@ def build_program(rng, nstmts, real=True):
         c = rng.random()
         if c < 0.12 and len(open_ctx) < 3:
             g = lang.Gen(rng, pool_ints, pool_arrs, [], FUNCS)
-            cond = norm_expr(g.bool_expr(1))
+            cond = norm_expr(g.bool_expr(1)) if rng.random() < 0.7 else ["var", rng.choice(pool_ints)]
             ctx = cb.if_(lang.to_pym(cond))
             ctx.__enter__()
             open_ctx.append(("if", ctx))
@@ -250,6 +250,59 @@ def exec_schedule(stmts, order, store):
     return {"status": status, "events": events, "store": final}
 
 
+def natural_run(prog, store):
+    """Carry out the builder calls one after another: an if_ block is entered when its condition, evaluated
+    on entry, is true; else_ is the complement of the if_ it follows.  Uses the real interpreter only to
+    execute single unguarded statements and evaluate expressions; independent of the builder's bookkeeping
+    (dependencies, flags, guards), of the execution controller and of the lowering."""
+    from dagrt.exec_numpy import FailStepException, NumpyInterpreter, TransitionEvent
+    from dagrt.language import DAGCode, ExecutionPhase, Nop, Raise
+    code = DAGCode({"p": ExecutionPhase("p", "p", frozenset([Nop(id="n")]))}, "p")
+    interp = NumpyInterpreter(code, lang.function_map(FUNCS))
+    ctx = {k: lang.val_to_py(v) for k, v in store.items()}
+    interp.context = ctx
+    interp.eval_mapper.context = ctx
+    events, status = [], ["run"]
+    stack, last_closed = [], None
+    for c in prog:
+        try:
+            if c[0] == "if":
+                stack.append(bool(interp.eval_mapper(lang.to_pym(c[1]))) if all(stack) else False)
+            elif c[0] == "endif":
+                last_closed = stack.pop()
+            elif c[0] == "else":
+                stack.append(not last_closed)
+            elif c[0] == "endelse":
+                stack.pop()
+                last_closed = None
+            elif c[0] == "stmt" and all(stack):
+                stmt = lang.kind_to_real(c[1], cond=["bool", True], sid="nat")
+                res = getattr(interp, stmt.exec_method)(stmt)
+                if res is not None and res[0] is not None:
+                    e = res[0]
+                    events.append([e.component_id, e.time_id, lang.canon_val(e.t), lang.canon_val(e.state_component)])
+        except FailStepException:
+            status = ["stop", "fail"]
+        except TransitionEvent as t:
+            status = ["stop", "switch", t.next_phase]
+        except lang.UserFunctionError:
+            status = ["crash", "user"]
+        except Exception as ex:  # noqa: BLE001
+            if c[0] == "stmt" and c[1][0] == "raise" and type(ex) is lang.RAISE_CLASSES[c[1][1]]:
+                status = ["stop", "raise", type(ex).__name__]
+            else:
+                status = ["crash", type(ex).__name__]
+        if status[0] != "run":
+            break
+    return {"status": status, "events": events, "store": {k: lang.canon_val(v) for k, v in ctx.items()}}
+
+
+def user_view(r):
+    """results without the builder's own flag variables"""
+    return {"status": r["status"], "events": r["events"],
+            "store": {k: v for k, v in r["store"].items() if not k.startswith("<cond>")}}
+
+
 def same_result(a, b):
     if a["status"][0] == "crash" or b["status"][0] == "crash":
         return a["status"][0] == b["status"][0]
@@ -298,6 +351,10 @@ def oracle(rng, prog, cb, names, store):
             return {"kind": "forward_edge", "statement": i, "deps": d}, []
     n = len(stmts)
     ref = exec_schedule(stmts, list(range(n)), store)
+    nat = natural_run(prog, store)
+    if not same_result(user_view(ref), user_view(nat)):
+        return {"kind": "program_order_differs_from_written_program", "as_written": user_view(nat),
+                "statements_in_order": user_view(ref)}, []
     exts = linear_extensions(deps, 120) if n <= 7 else None
     if exts is None:
         exts = [random_extension(rng, deps) for _ in range(16)]
